@@ -16,6 +16,7 @@ import (
 	"verif/harness/mon/c15"
 	"verif/harness/mon/c16"
 	"verif/harness/mon/c17"
+	"verif/harness/mon/c18"
 	"verif/harness/mon/c19"
 )
 
@@ -36,5 +37,6 @@ func init() {
 	register("C15", c15.Run)
 	register("C16", c16.Run)
 	register("C17", c17.Run)
+	register("C18", c18.Run)
 	register("C19", c19.Run)
 }
